@@ -131,7 +131,11 @@ fn full_check(ctx: &mut Ctx, stream: &str, n: u64, sm: &SourceMap, rng: &mut Rng
     ctx.bucket(&format!("producer:{how}"));
     let r = catch(|| {
         let toks = check_order(sm)?;
-        let q = queries_for(&toks, rng);
+        let mut q = queries_for(&toks, rng);
+        check_lookups(ctx, sm, &toks, &q)?;
+        // and once more in shuffled order on the same object (answers must not depend on history)
+        rng.shuffle(&mut q);
+        q.truncate(40);
         check_lookups(ctx, sm, &toks, &q)?;
         Ok::<usize, Fail>(toks.len())
     });
